@@ -396,21 +396,21 @@ func run(id, tier string) int {
 	ev := core.D{
 		"property_id": id, "tier": tier, "seed": seed, "level": meta.Level,
 		"coverage": core.D{
-			"evaluations":         agg.Evaluations,
-			"distinct_nontrivial": len(nt),
-			"rule":                meta.Rule,
-			"samples":             agg.Samples,
-			"exhaustive":          false,
-			"observed":            obs,
-			"distinct_observed":   setSizes,
+			"evaluations":                      agg.Evaluations,
+			"distinct_nontrivial":              len(nt),
+			"rule":                             meta.Rule,
+			"samples":                          agg.Samples,
+			"exhaustive":                       false,
+			"observed":                         obs,
+			"distinct_observed":                setSizes,
 			"anchor_function_coverage_percent": anchorCov,
-			"known_finding_hits":  knownHits,
-			"violation_classes":   agg.ViolCount,
-			"inconclusive":        inconclusive,
-			"race_report_blocks":  nRaceBlocks,
-			"race_reports_distinct": len(raceReports),
-			"child_processes":     len(children),
-			"verdict":             verdict,
+			"known_finding_hits":               knownHits,
+			"violation_classes":                agg.ViolCount,
+			"inconclusive":                     inconclusive,
+			"race_report_blocks":               nRaceBlocks,
+			"race_reports_distinct":            len(raceReports),
+			"child_processes":                  len(children),
+			"verdict":                          verdict,
 		},
 		"assumptions": meta.Assumptions,
 		"wall_s":      time.Since(t0).Seconds(),
